@@ -48,7 +48,7 @@ B2 = S.cat("b", 2, "last", values=[2, 1], names=["y", "x"])
 M2 = S.mr("m", 2)
 M3 = S.mr("n", 3)
 r_ins = [subtotal("s12", [1, 2], anchor=1, sid=1), subtotal("d3_1", [3], [1], anchor="bottom", sid=2)]
-c_ins = [subtotal("t12", [1, 2], anchor="top", sid=5)]
+c_ins = [subtotal("t12", [1, 2], anchor="top", sid=5), subtotal("t2", [2], anchor="bottom", sid=6)]
 
 ROW_ORDERS = [None, {"type": "explicit", "element_ids": [3, 1]}, {"type": "explicit", "element_ids": [2, 2, 99]},
               {"type": "label", "direction": "ascending"},
@@ -367,5 +367,26 @@ def check(space, state):
         if d is not None:
             V.append(viol("output:%s%s" % (n, sfx), "%s at %s: %r, base output re-indexed by the order gives %r"
                           % (n, d[0], d[1], d[2])))
+    # ---- absolute anchor of the relation: position i of labels / codes NAMES the vector that the order
+    # ---- reports at i (element name / id for a base element, insertion name / id for a subtotal)
+    for which, order, ins in ((0, ro, r_ins), (1, co, c_ins)):
+        if order is None:
+            continue
+        var = sch.vars[sch.dims[which][1]]
+        if var.kind != "CAT":
+            continue
+        vc = [c for c in var.cats if not c.get("missing")]
+        names_ = [c["name"] for c in vc] + [i["name"] for i in ins]
+        codes_ = [c["id"] for c in vc] + [i["id"] for i in ins]
+        nb = len(vc)
+        idx = [k if k >= 0 else nb + len(ins) + k for k in order]
+        for out_name, table in ((("row_labels", "column_labels")[which], names_), (("row_codes", "column_codes")[which], codes_)):
+            if not hasattr(part, out_name):
+                continue
+            asserted += 1
+            got = list(getattr(part, out_name))
+            exp = [table[k] for k in idx]
+            if [str(x) for x in got] != [str(x) for x in exp]:
+                V.append(viol("naming:%s" % out_name, "%s %r but the reported order %r names %r" % (out_name, got, order, exp)))
     ntv = ro != bro or (co is not None and co != bco)
     return Res(V, ntv, digest(space, state[1], repr(ro), repr(co)), asserted)
